@@ -53,3 +53,22 @@ PROPS["C20"] = {
     "uncovered": ["convex-hull construction (Polygons::createFromDb)", "_isClosed tolerance 1e-5 for nearly-closed outlines (generator produces exactly closed or clearly open outlines)"],
     "assumptions": ["points on the boundary are decided exactly by the driver and skipped"],
 }
+
+PROPS["C07"] = {
+    "module": "GstProofs.Props.C07",
+    "theorems": [
+        "GstProofs.C07.inv_sound", "GstProofs.C07.init", "GstProofs.C07.step_partial",
+        "GstProofs.C07.reach_partial", "GstProofs.C07.delete_frame", "GstProofs.C07.counts",
+        "GstProofs.Db.deleteByUid_inv",
+    ],
+    "harnesses": ["vh_c07"],
+    "level": "proof",
+    "technique": "Lean 4 state-machine model of the Db table with a decidable consistency invariant; invariant preservation proved by induction over histories for the deleting/sample/value/role-clearing operations; every generated history is replayed on the real Db/DbGrid and both the model state and the invariant (evaluated on the library's own state) are compared after each operation",
+    "level_text": "Partial proof: the invariant is proved for all histories of the covered operations (column deletion by uid/index/name/role, sample addition/deletion, value assignment, role clearing) and the decidable invariant is proved equivalent to its Prop form; role assignment, renaming and column addition are modelled and tied by correspondence, their invariant being decided per history by the same predicate run on the library's state (not yet a theorem).",
+    "level_note": "Trusted: Lean kernel + 3 standard axioms; the hand-written state-machine (validated op by op against the library on every run); names restricted to the grammar [a-z0-9.-] in the harness (names are regular expressions in the library: known finding F32).",
+    "rule": "random histories (1-40 operations among 20 public editing operations, ~10% invalid arguments: bad indices, dead uids, unknown names, duplicate names, UNKNOWN locator) on Db and DbGrid; after each operation the full observable state (names, uids, role table, values, counts, and every designation: uid->col, col->role, name->col) is compared with the model and checked by the invariant. distinct = distinct history text; trivial = histories of fewer than 3 operations",
+    "trivial": lambda line: line.count(" ; ") < 3,
+    "trusted_base": TB_COMMON,
+    "uncovered": ["invariant preservation of setLocator*/setName*/addColumnsByConstant/switchLocator is not yet a theorem (decided per history by the executable invariant)", "addColumns(tab), addSelection*, setColumn* (not modelled)"],
+    "assumptions": ["column names drawn from [a-z0-9.-]"],
+}
